@@ -1,20 +1,3 @@
-//! vh-protocol: pure, hook-free checks over ant-protocol / ant-evm / ant-registers values.
-mod c12;
-mod c12_oracle;
-mod c12_values;
-mod c13;
-mod c16;
-mod common;
-
 fn main() {
-    let cfg = vh_core::RunCfg::from_args();
-    match cfg.prop.as_str() {
-        "C12" => c12::run(cfg),
-        "C13" => c13::run(cfg),
-        "C16" => c16::run(cfg),
-        other => {
-            eprintln!("vh-protocol: unknown property {other}");
-            std::process::exit(2);
-        }
-    }
+    vh_protocol::main_entry()
 }
